@@ -188,8 +188,29 @@ def gen_commands(rng, voc, n, weights, spell_gdb=False):
                 nm = rng.choice(voc.conns + ['A', 'B', 'b', 'c', 'org.gnome.gedit', 'x.b'])
                 out.append(['cmd', word + ' ' + (nm.lower() if rng.random() < 0.3 else nm), {'t': 'connection', 'to': nm}])
         else:
-            out.append(['cmd', rng.choice(['help', 'help list', 'matcher wl_surface', 'h', 'm x.y', 'help matcher']), {'t': 'other'}])
+            out.append(['cmd', rng.choice(['help', 'help list', 'matcher wl_surface', 'h', 'm x.y', 'help matcher',
+                                           # (state-neutral: only `list` / `matcher` / `help` may appear here)
+                                           'list (argb8888)', 'list (xrgb8888)', 'list wl_shm.format(argb8888)', 'list (pressed)', 'list (pointer)',
+                                           'list (format=xrgb8888)', 'list (none)', 'list .(! 5)', 'matcher wl_surface(! x=)', 'list (! nil)',
+                                           'matcher (! 1, 2)', 'list [wl_* ! wl_display].[* ! sync]', 'matcher ([1, 2] ! x=)']), {'t': 'other'}])
     return out
+
+
+def collision_flavour(rng, intents, voc, verb):
+    """two consecutive commands whose matchers print alike but mean different things: (7) and ("7")"""
+    both = [v for v in voc.ints if str(v) in voc.strs]
+    v = rng.choice(both) if both else (rng.choice(voc.ints) if voc.ints else 7)
+    a = {'kind': 'list', 'alts': [{'conn': None, 'bare': False, 'obj': None, 'name': '', 'args': [['int', v]]}], 'excl': []}
+    b = {'kind': 'list', 'alts': [{'conn': None, 'bare': False, 'obj': None, 'name': '', 'args': [['str', str(v)]]}], 'excl': []}
+    pair = [a, b] if rng.random() < 0.5 else [b, a]
+    cmds = []
+    for m in pair:
+        text = verb + ' ' + R.render(m)
+        cmds.append(['cmd', text, {'t': 'list', 'm': m, 'cap': None} if verb == 'list' else {'t': verb, 'm': m}])
+    if verb != 'list':
+        cmds.append(['cmd', 'list', {'t': 'list', 'm': None, 'cap': None}])
+    pos = rng.randint(len(intents) // 2, len(intents))
+    return intents[:pos] + cmds + intents[pos:]
 
 
 def revisit_flavour(rng, intents, names):
